@@ -183,6 +183,14 @@ Section CKernel.
         c <- rexp_val sre sim oth othslots e1 ;; y <- rarg_val sre sim oth othslots b ;;
         bin_part f (sarg_of c) y
     | RArg a => x <- rarg_val sre sim oth othslots a ;; of_same x
+    | RNestUn f e1 =>
+        c <- rexp_val sre sim oth othslots e1 ;;
+        v <- apply_un N f (comp_obj c) ;;
+        match v with
+        | VObj o' => Ok (CNew o')
+        | VSame _ => Ok c
+        | _ => Err OtherExn
+        end
     end.
 
   (* ---------- results of an operation on complex operands ---------- *)
